@@ -1629,3 +1629,103 @@ Proof.
   destruct (diff_with_tree (idx_of w) ns) as [|x l] eqn:E; [|reflexivity].
   exfalso. apply Hne. apply (proj1 (commit_guard w hid cm d ns Hg Hc Hk Hw) E).
 Qed.
+
+(** ** 4. Non-vacuity *)
+Local Open Scope string_scope.
+
+Definition ex_env : env := mkEnv 1700000000 32400.
+Definition ex_prefix : list action :=
+  [ ACmd ex_env CInit;
+    ACmd ex_env (CConfig false [str "user.name"; str "Ada L"]);
+    ACmd ex_env (CConfig false [str "user.email"; str "ada@example.com"]);
+    AEdit (UWrite (str "d/x y") (str "one"));
+    AEdit (UWrite (str "d-a") (str "two"));
+    AEdit (UWrite (str "a") (str "three"));
+    ACmd ex_env (CAdd [str "."]) ].
+Definition ex_suffix : list action :=
+  [ AEdit (UWrite (str "a") (str "changed"));
+    ACmd ex_env (CAdd [str "a"]);
+    ACmd ex_env (CCommit (str "second")) ].
+Definition ex_reset : action := ACmd ex_env (CReset false true false [str "HEAD@{1}"]).
+Definition ex_history : list action :=
+  ex_prefix ++ [ACmd ex_env (CCommit (str "first"))] ++ ex_suffix ++ [ex_reset].
+
+Definition ex_commit1 : action := ACmd ex_env (CCommit (str "first")).
+
+Lemma small_store_b : forall st,
+  forallb (fun kv => N.ltb (lenN (snd kv)) (2 ^ 63)) st = true -> SmallStore st.
+Proof.
+  induction st as [|[k v] st IH]; intros H id p Hl; [discriminate Hl|].
+  cbn [forallb snd] in H. apply andb_true_iff in H. destruct H as [Hv Hr].
+  cbn [st_lookup] in Hl. destruct (bytes_eqb k id).
+  - injection Hl as <-. apply N.ltb_lt. exact Hv.
+  - exact (IH Hr id p Hl).
+Qed.
+
+Example ex_history_ok : Forall action_ok ex_history.
+Proof.
+  unfold ex_history, ex_prefix, ex_suffix, ex_reset. cbn [app].
+  repeat (apply Forall_cons || apply Forall_nil); cbn [action_ok edit_ok]; try exact Logic.I.
+  all: unfold valid_path; simpl; tf_valid.
+Qed.
+
+(* every command of the history succeeds *)
+Fixpoint outcomes (h : list action) (w : world) : list bool :=
+  match h with
+  | [] => []
+  | a :: r => (match snd (fst (step a w)) with OOk _ => true | _ => false end) :: outcomes r (step_w a w)
+  end.
+
+Example ex_history_succeeds : forallb (fun b => b) (outcomes ex_history w_empty) = true.
+Proof. vm_compute. reflexivity. Qed.
+
+(* the staging area after the reset is the one the first commit was made from,
+   and it differs from the one just before the reset *)
+Example ex_history_result :
+  idx_of (run ex_history w_empty) = idx_of (run ex_prefix w_empty) /\
+  map e_path (idx_of (run ex_history w_empty)) = [str "a"; str "d-a"; str "d/x y"] /\
+  idx_of (run (ex_prefix ++ [ex_commit1] ++ ex_suffix) w_empty) <> idx_of (run ex_history w_empty) /\
+  w_coll (run ex_history w_empty) = false.
+Proof.
+  split; [vm_compute; reflexivity|]. split; [vm_compute; reflexivity|].
+  split; [vm_compute; intro H; discriminate H | vm_compute; reflexivity].
+Qed.
+
+Example ex_history_small : SmallStore (w_objs (run ex_history w_empty)).
+Proof. apply small_store_b. vm_compute. reflexivity. Qed.
+
+(* so the hypotheses of [good_run] are satisfiable, and its conclusion holds here *)
+Example ex_history_good : GoodW (run ex_history w_empty).
+Proof.
+  apply good_run_strong; [exact ex_history_ok | | exact ex_history_small].
+  vm_compute. reflexivity.
+Qed.
+
+(* the reset of the example resolves HEAD@{1} to the first commit, whose
+   snapshot is the staging area of [ex_prefix] *)
+Example ex_reset_target :
+  let w1 := step_w ex_commit1 (run ex_prefix w_empty) in
+  let w := run (ex_prefix ++ [ex_commit1] ++ ex_suffix) w_empty in
+  reset_target w (str "HEAD@{1}") = am_get (w_refs w1) (w_head w1) /\
+  am_get (w_refs w1) (w_head w1) <> None /\
+  am_get (w_refs w) (w_head w) <> am_get (w_refs w1) (w_head w1).
+Proof.
+  split; [vm_compute; reflexivity|]. split; vm_compute; intro H; discriminate H.
+Qed.
+
+(* ================================================================== *)
+Print Assumptions good_run.
+Print Assumptions good_run_strong.
+Print Assumptions index_good_step.
+Print Assumptions staging_area_sorted.
+Print Assumptions parse_commit_tree.
+Print Assumptions commit_snapshot_step.
+Print Assumptions commit_snapshot.
+Print Assumptions snapshot_stable_run.
+Print Assumptions reset_reads_back.
+Print Assumptions reset_restores_commit.
+Print Assumptions commit_guard.
+Print Assumptions commit_nothing_refused.
+Print Assumptions commit_guard_passes.
+Print Assumptions ex_history_result.
+Print Assumptions ex_history_good.
